@@ -2,4 +2,4 @@
 From Coq Require Extraction ExtrOcamlBasic.
 From GV Require Import Pool.Model Pool.Observe Pool.Monitors.
 Extraction Language OCaml.
-Extraction "pool_model.ml" init_bal full_step observe accept run C01_ok C02_ok C03_ok C03R_ok known_RES C03S_ok C09D_ok known_RR2 C09W_ok known_RR1 set_rr C04_ok C05_ok C06_ok C07_ok C08_ok C09_ok C20_ok.
+Extraction "pool_model.ml" init_bal full_step observe accept run C01_ok C02_ok C03_ok C03R_ok known_RES C03S_ok C03X_ok C09D_ok known_RR2 C09W_ok known_RR1 set_rr C04_ok C05_ok C06_ok C07_ok C08_ok C09_ok C20_ok.
